@@ -12,6 +12,7 @@ import (
 	"os"
 	"path/filepath"
 	"reflect"
+	"regexp"
 	"runtime/debug"
 	"strings"
 	"sync"
@@ -114,6 +115,11 @@ func anonymise(v reflect.Value, depth int) {
 		}
 	}
 }
+
+// reIntervalPlaceholder: PostgreSQL "interval '1 day'" is redacted to "interval :replaced1". Acra's grammar wants a quoted
+// string after INTERVAL, so that text is not accepted again, but the property asks that the shape is kept, not that the
+// redacted text is grammatical: for the shape comparison the placeholder is given back a string spelling.
+var reIntervalPlaceholder = regexp.MustCompile(`\binterval :replaced[0-9]+`)
 
 func skeleton(sql string) (string, sqlparser.Statement, error) {
 	t, err := sqlparser.New(sqlparser.ModeStrict).Parse(sql)
@@ -562,11 +568,12 @@ func firstAcraFrame(stack string) string {
 func (m *monitor) redactionPhase(d sqlgen.Dialect, cases []stmtCase) {
 	r := m.r
 	type res struct {
-		ok       bool
-		redacted map[string]string
-		shapeErr string
-		skOrig   string
-		skRed    string
+		ok            bool
+		redacted      map[string]string
+		shapeErr      string
+		intervalCanon bool
+		skOrig        string
+		skRed         string
 	}
 	out := make([]res, len(cases))
 	var wg sync.WaitGroup
@@ -600,6 +607,12 @@ func (m *monitor) redactionPhase(d sqlgen.Dialect, cases []stmtCase) {
 					if err == nil && c.st.DML() && c.origin == "gen" {
 						o.skOrig = so
 						sr, _, err := skeleton(red["HandleRawSQLQuery(strict)"])
+						if err != nil && d == sqlgen.PostgreSQL {
+							if canon := reIntervalPlaceholder.ReplaceAllString(red["HandleRawSQLQuery(strict)"], "interval 'x'"); canon != red["HandleRawSQLQuery(strict)"] {
+								o.intervalCanon = true
+								sr, _, err = skeleton(canon)
+							}
+						}
 						if err != nil {
 							o.shapeErr = err.Error()
 						} else {
@@ -640,6 +653,9 @@ func (m *monitor) redactionPhase(d sqlgen.Dialect, cases []stmtCase) {
 		}
 		if o.skOrig != "" {
 			r.Count("shape_checked", 1)
+			if o.intervalCanon {
+				r.Count("shape_checked_after_interval_placeholder_canonicalisation", 1)
+			}
 			switch {
 			case o.shapeErr != "":
 				cause := fragile(c.st)
